@@ -203,7 +203,68 @@ def r7_context_dependent_work_happens_inside_its_context(ctx):
         raise AnalysisError("no `with ctx.*` blocks found in analyzer/generator")
 
 
+OPT = "src/basilisp/lang/compiler/optimizer.py"
+
+
+@rule("C01.R8", floor=4)
+def r8_function_level_globals_precede_every_use(ctx):
+    """`def` and `import*` inside a function assign a module global, for which the generator
+    writes `global NAME` next to the assignment.  Python rejects a function in which NAME is used
+    before that statement, and the uses may sit in statements generated earlier (the init's own
+    dependencies, an earlier body form, the other branch of an if).  The declarations therefore
+    have to be moved to the top of the function body: the optimizer's Global visitor drops them
+    inside functions and both function visitors (sync and async -- siblings that must agree) put
+    the collected names first."""
+    tree = ctx.py(OPT)
+    cls = P.find_def(tree, "PythonASTOptimizer")
+    if cls is None:
+        raise AnalysisError("anchor vanished: PythonASTOptimizer")
+    ms = P.methods(cls)
+    vg = ms.get("visit_Global")
+    if vg is None:
+        raise AnalysisError("anchor vanished: PythonASTOptimizer.visit_Global")
+    drops = [r for r in ast.walk(vg) if isinstance(r, ast.Return) and isinstance(r.value, ast.Constant) and r.value.value is None and isinstance(P.parent(r), ast.If)]
+    ok = bool(drops)
+    ctx.ob("C01.R8", f"{OPT}::visit_Global removes the declaration inside functions", OPT, vg.lineno, ok,
+           "" if ok else "function-level `global` statements stay where the generator put them: a function that reads a Var before re-def'ing it does not compile (SyntaxError: name used prior to global declaration)",
+           witness="(def z 1) (defn g [] (println z) (def z 2))")
+    ngc = ms.get("_new_global_context")
+    yields = [y for y in ast.walk(ngc) if isinstance(y, ast.Yield)] if ngc is not None else []
+    ok = bool(yields) and all(y.value is not None and "_global_ctx" in P.un(y.value) for y in yields)
+    ctx.ob("C01.R8", f"{OPT}::_new_global_context hands out the set of declared names", OPT, getattr(ngc, "lineno", 0), ok, "" if ok else "the visitors cannot learn which names were declared in the function")
+    shapes = {}
+    for vname in ("visit_FunctionDef", "visit_AsyncFunctionDef"):
+        v = ms.get(vname)
+        if v is None:
+            raise AnalysisError(f"anchor vanished: PythonASTOptimizer.{vname}")
+        withs = [w for w in ast.walk(v) if isinstance(w, ast.With) and any("_new_global_context" in P.un(i.context_expr) and i.optional_vars is not None for i in w.items)]
+        var = P.un(withs[0].items[0].optional_vars) if withs else None
+        body_kw = [k.value for c in P.calls(v) for k in c.keywords if k.arg == "body"]
+        hoisted = False
+        for b in body_kw:
+            if isinstance(b, ast.Call) and var is not None and any(P.un(a) == var for a in b.args):
+                h = P.find_def(tree, P.un(b.func))
+                if h is not None:
+                    rets = [r.value for r in ast.walk(h) if isinstance(r, ast.Return) and isinstance(r.value, (ast.List, ast.Tuple)) and r.value.elts]
+                    hoisted = any(isinstance(r.elts[0], ast.Call) and P.un(r.elts[0].func) == "ast.Global" for r in rets)
+            elif isinstance(b, (ast.List, ast.BinOp)) and var is not None and "ast.Global(" in P.un(b) and var in P.un(b):
+                hoisted = P.un(b).index("ast.Global(") < len(P.un(b)) // 2
+        shapes[vname] = hoisted
+        ctx.ob("C01.R8", f"{OPT}::{vname} puts the collected declarations first in the body", OPT, v.lineno, hoisted,
+               "" if hoisted else f"{vname} does not emit the function's global declarations at the top of its body")
+    ok = len(set(shapes.values())) == 1
+    ctx.ob("C01.R8", f"{OPT}::sync and async function visitors agree", OPT, cls.lineno, ok, "" if ok else "only one of the two function visitors hoists the declarations")
+
+
 SELFTEST = [
+    {"name": "global declarations left in place (the repaired defect)", "file": OPT, "expect": "C01.R8",
+     "old": "        if self._is_function_context:\n", "new": "        if False:\n",
+     "edits": [
+         {"file": OPT, "old": "        self._global_context.update(new_names)\n        if self._is_function_context:\n", "new": "        self._global_context.update(new_names)\n        if self._is_function_context and not new_names:\n"},
+         {"file": OPT, "old": "                body=_hoist_globals(global_names, _filter_dead_code(new_node.body)),\n", "new": "                body=_filter_dead_code(new_node.body),\n", "count": "all"},
+     ]},
+    {"name": "async functions do not hoist", "file": OPT, "expect": "C01.R8",
+     "old": "                body=_hoist_globals(global_names, _filter_dead_code(new_node.body)),\n", "new": "                body=_filter_dead_code(new_node.body),\n", "nth": 1, "count": 2},
     {"name": "recur arguments analysed after expr_pos was left", "file": ANA, "expect": "C01.R7",
      "old": "        exprs = vec.vector(_analyze_form(form, ctx) for form in form.rest)\n\n    return Recur(form=form, exprs=exprs, loop_id=loop_id, env=ctx.get_node_env())",
      "new": "        exprs = (_analyze_form(expr, ctx) for expr in form.rest)\n\n    return Recur(form=form, exprs=vec.vector(exprs), loop_id=loop_id, env=ctx.get_node_env())"},
